@@ -22,6 +22,7 @@ var (
 		"/apis/apps/v1/namespaces/{p}/deployments/{s}/scale", "/api/v1/nodes/{s}", "/api/v1/nodes/{p}/proxy/{s}/{s}", "/api/v1/namespaces/{p}/services/{s}/proxy/{s}/{s}/{s}",
 		"/apis/{s}/v1/{s}", "/apis/example.com/v1beta1/namespaces/{s}/widgets/{s}", "/api/v1/namespaces/{p}/configmaps", "/api/v1/pods",
 		"/healthz", "/version", "/openapi/v2", "/metrics", "/api", "/apis", "/", "/{s}", "/{s}/{s}", "/{s}/{s}/{s}/{s}", "/logs/{s}", "/api/v1/namespaces/{p}/secrets/{s}",
+		"/api/v1/proxy", "/apis/apps/v1/watch", // API-shaped but unparsable for the generic request-info filter (excluded class)
 	}
 	eventTemplates    = []string{"/api/v1/namespaces/{p}/events", "/api/v1/namespaces/{p}/events/{p}", "/apis/events.k8s.io/v1/namespaces/{p}/events", "/api/v1/events"}
 	nonEventTemplates = []string{"/api/v1/namespaces/{p}/pods", "/api/v1/namespaces/{p}/pods/{p}", "/apis/apps/v1/namespaces/{p}/deployments/{p}", "/api/v1/nodes", "/version", "/healthz", "/api/v1/namespaces/{p}/configmaps/{p}/", "/x/{p}"}
